@@ -11,6 +11,7 @@ package main
 // Calls that fail (a busy database) are allowed; a duplicate is not.
 
 import (
+	"database/sql"
 	"fmt"
 	"os"
 	"path/filepath"
@@ -180,6 +181,47 @@ func runAtomic(c *ctx) error {
 		}
 		close(stop)
 		rd.Wait()
+		// ---- a commit that cannot go through: another connection to the database file (a backup, a
+		// report, one of the server's own unserialised reads) holds a read cursor open while the counter is
+		// fetched. Whatever NextFCntDn answers: a counter it hands out may be on the air, so after a
+		// restart the stored counter must be past it.
+		if db2, err := sql.Open("sqlite", file); err == nil {
+			handed := -1
+			for k := 0; k < 3; k++ {
+				rows, qerr := db2.Query("SELECT eui FROM lora_devices")
+				held := qerr == nil && rows.Next()
+				v1, err1 := st.NextFCntDn(eui)
+				if rows != nil {
+					rows.Close()
+				}
+				c.res.Eval()
+				if err1 != nil {
+					c.res.Count("NextFCntDn under a foreign read cursor: refused")
+				} else {
+					c.res.Count("NextFCntDn under a foreign read cursor: ok")
+					if held {
+						handed = int(v1)
+					}
+				}
+			}
+			db2.Close()
+			if handed >= 0 {
+				// the process dies (its connections, and any transaction still open on them, are gone) and a
+				// new one opens the file
+				st.VerifAbandon()
+				st2, err := storage.CreateStorage(file)
+				if err != nil {
+					return err
+				}
+				st = st2
+				if d, err := st.GetDeviceByEUI(eui); err == nil && (int(d.FCntDn)-handed+65536)%65536 == 0 {
+					c.res.Add(hx.Finding{Kind: "propfail", Engine: "atomic", Signature: "downlink-fcnt-handed-out-not-durable",
+						Case: fmt.Sprintf("Storage.NextFCntDn while another connection to the database file holds an open read cursor (SELECT eui FROM lora_devices, one row fetched); then the store is closed and the file opened again"),
+						Impl: fmt.Sprintf("NextFCntDn returned counter %d without an error; after reopening fcnt_dn=%d", handed, d.FCntDn), Spec: fmt.Sprintf("an error, or fcnt_dn=%d after reopening", (handed+1)%65536),
+						Note: "C07/C10: a counter was handed out although the write that protects it did not go through: after a restart the same counter is used again under the same session keys"})
+				}
+			}
+		}
 		c.res.Class(fmt.Sprintf("workers=%d readers=%v", workers, withReaders))
 		st.Close()
 		os.Remove(file)
